@@ -1,8 +1,12 @@
 pub mod acc;
 pub mod case;
+#[cfg(not(feature = "cfg-nostd-nolock"))]
 pub mod conc;
+#[cfg(not(feature = "cfg-nostd-nolock"))]
 pub mod lin12;
+#[cfg(not(feature = "cfg-nostd-nolock"))]
 pub mod sched;
+#[cfg(not(feature = "cfg-nostd-nolock"))]
 pub mod stress;
 pub mod toks;
 pub mod check;
